@@ -8,6 +8,7 @@ package driver
 // note on C19's schedule clause).
 
 import (
+	"context"
 	"database/sql/driver"
 	"errors"
 	"io"
@@ -81,5 +82,83 @@ func VH_C19_expand() {
 	}
 	_, err = st.expandSelectColumns(sqsql.SelectStmt{Table: "nosuch", Columns: []string{"*"}})
 	sdb.VerifAssert(err != nil, "unknown table is an error")
+	sdb.VerifReach("end")
+}
+
+// The result-set life cycle with the producer goroutine, sequentialised (see
+// engine/threads.go): the consumer reads k rows and then closes the result
+// set; optionally one page read of the producer fails.
+//verif:bounds table t(a,b) of 1..2 rows (values symbolic); query "SELECT b, * FROM t"; consumer reads k = 0..n+1 rows then Close; optional one-shot page-read fault at any ordinal j; single consumer, producer run to completion under the consumer script
+func VH_C19_stream() {
+	n := 1 + sdb.VerifChoice(2)
+	f := sdb.VerifNewFile(512)
+	root := f.AddPage()
+	f.Master([]sdb.VerifMasterRow{{Typ: "table", Name: "t", Tbl: "t", Root: root, SQL: "CREATE TABLE t (a, b)"}})
+	var ids []int64
+	var pls [][]byte
+	var vals [][2]int64
+	for i := 0; i < n; i++ {
+		a, b := sdb.VerifInt64(), sdb.VerifInt64()
+		vals = append(vals, [2]int64{a, b})
+		ids = append(ids, int64(i+1))
+		pls = append(pls, sdb.VerifRecord(a, b))
+	}
+	f.TableLeaf(root, ids, 1, pls)
+	d, err := f.Open()
+	sdb.VerifNoErr(err, "valid file opens")
+	st := &Statement{dbh: sqlittle.VerifWrap(d), SQL: "SELECT b, * FROM t"}
+	k := sdb.VerifChoice(n + 2)
+	faulty := sdb.VerifChoice(2) == 1
+	if faulty {
+		j := sdb.VerifInt()
+		sdb.VerifAssume(j >= 1 && j <= 1000)
+		f.Pager.FailAt = f.Pager.Reads + j
+	}
+	sdb.VerifConsumerScript(k, true)
+	rows, err := st.QueryContext(context.Background(), nil)
+	if err != nil {
+		// the column expansion read the schema and met the fault
+		sdb.VerifAssert(faulty, "query preparation fails only because of the injected fault")
+		sdb.VerifAssert(!f.Pager.Locked && f.Pager.Locks == f.Pager.Unlocks, "lock released after a failed query")
+		sdb.VerifReach("query-failed")
+		return
+	}
+	cols := rows.Columns()
+	sdb.VerifAssert(len(cols) == 3 && cols[0] == "b" && cols[1] == "a" && cols[2] == "b", "columns: named column, then * expanded in definition order")
+	dest := make([]driver.Value, len(cols))
+	got := 0
+	var nextErr error
+	for i := 0; i < k; i++ {
+		if e := rows.Next(dest); e != nil {
+			nextErr = e
+			break
+		}
+		if got < n && len(dest) == 3 {
+			b0, ok0 := dest[0].(int64)
+			a1, ok1 := dest[1].(int64)
+			b2, ok2 := dest[2].(int64)
+			sdb.VerifAssert(ok0 && ok1 && ok2 && b0 == vals[got][1] && a1 == vals[got][0] && b2 == vals[got][1], "rows equal the native select's rows, in order")
+		}
+		got++
+	}
+	cerr := rows.Close()
+	sdb.VerifAssert(got <= n, "never more rows than the table has")
+	hit := faulty && f.Pager.Reads >= f.Pager.FailAt
+	if !hit {
+		want := k
+		if n < want {
+			want = n
+		}
+		sdb.VerifAssert(got == want, "without a fault the consumer gets exactly the rows it asked for")
+		if k > n {
+			sdb.VerifAssert(nextErr == io.EOF, "reading past the last row is a clean end")
+		}
+		sdb.VerifAssert(cerr == nil, "Close without a fault returns nil")
+	} else {
+		surfaced := (nextErr != nil && nextErr != io.EOF) || cerr != nil
+		sdb.VerifAssert(surfaced, "a failure met by the producer surfaces through Next or Close, never as a clean short result")
+		sdb.VerifReach("fault-surfaced")
+	}
+	sdb.VerifAssert(!f.Pager.Locked && f.Pager.Locks == f.Pager.Unlocks, "the file lock is released once the result set is closed")
 	sdb.VerifReach("end")
 }
